@@ -241,8 +241,10 @@ func WorkerMain(engines map[string]func() Engine) {
 		class := res.Violation.Class
 		rec := t.Record()
 		min, used := tape.Shrink(rec, func(c []uint32) bool {
+			// keep the class, and never slide into a listed known finding: a new
+			// violation of the same class must not be minimised into a listed one
 			r := safeRun(eng, tape.NewReplay(c), false)
-			return r.Violation != nil && r.Violation.Class == class
+			return r.Violation != nil && r.Violation.Class == class && MatchKnown(kn, r.Violation.Signature) == nil
 		}, shrinkBudget(eng, *tier), eng.Strides()...)
 		wo.ShrinkExecs += used
 		fr := safeRun(eng, tape.NewReplay(min), true)
